@@ -84,14 +84,31 @@ def hostile_texts(rng, v, n):
     return out
 
 
+def x509_vectors():
+    """X.509 host keys around a committed public certificate that carries a signed certificate timestamp list (the
+    certificates of the library's own vectors carry none): {class name: [bytes]}"""
+    import struct
+    der = bytes.fromhex(json.load(open(os.path.join(os.path.dirname(os.path.abspath(__file__)), 'corpus_x509.json')))['der'])
+
+    def s(b):
+        return struct.pack('!I', len(b)) + b
+    return {
+        'cryptoparser.ssh.key.SshX509Certificate': [s(b'x509v3-sign-rsa-sha1') + s(der)],
+        'cryptoparser.ssh.key.SshX509CertificateChain': [s(b'x509v3-ssh-rsa') + struct.pack('!I', 1) + s(der) + struct.pack('!I', 0)],
+    }
+
+
 def objects(rng, per_vector):
     vectors = sweep.library_vectors()
+    extra = x509_vectors()
     for cls in sorted(vectors, key=sweep.qualname):
         name = sweep.qualname(cls)
-        for v in vectors[cls]:
-            # directed malformations too (numbers at the ends of their range, members of other types): what the parser still accepts
-            # must still be serialisable
-            for b in [v] + [sweep.mutate(rng, v) for _ in range(per_vector)] + hostile_texts(rng, v, 2 + per_vector) + sweep.directed(rng, v, (), 8 * per_vector, 4):
+        for v in list(vectors[cls]) + extra.pop(name, []):
+            # directed malformations too (numbers at the ends of their range, members of other types; inside DER: identifiers that
+            # are not known, numbers that are not positive, timestamp list lengths): what the parser still accepts must still be
+            # serialisable
+            for b in [v] + [sweep.mutate(rng, v) for _ in range(per_vector)] + hostile_texts(rng, v, 2 + per_vector) + sweep.directed(rng, v, (), 8 * per_vector, 4) \
+                    + sweep.der_directed(v, 16 if per_vector == 1 else 64):
                 try:
                     obj, _ = cls.parse_immutable(b)
                 except Exception:  # pylint: disable=broad-except
